@@ -381,6 +381,15 @@ def slist_method(I, l: SList, name, args, kwargs):
         return None
     if name == "copy":
         return SList(l.name, l.base, list(l.tail))
+    if name in ("insert", "remove", "sort", "reverse", "clear", "pop"):
+        # anything that touches the unknown prefix: afterwards nothing is known about the list at all
+        from .values import OpaqueSort
+
+        l.base = I.ctx.fresh_const(l.name + ".prefix'", OpaqueSort)
+        l.tail = []
+        if name == "pop":
+            raise Unsupported("value popped from a list with an unknown prefix")
+        return None
     raise Unsupported(f"method {name} of a list with an unknown prefix")
 
 
